@@ -13,24 +13,24 @@ import (
 )
 
 type Solver struct {
-	lines   chan string
-	dead    bool
-	cmd     *exec.Cmd
-	in      io.WriteCloser
-	out     *bufio.Reader
-	pr      *smtPrinter
-	vars    []*Term // declared variables in this session (for get-value)
-	varSeen map[string]bool
+	lines    chan string
+	dead     bool
+	cmd      *exec.Cmd
+	in       io.WriteCloser
+	out      *bufio.Reader
+	pr       *smtPrinter
+	vars     []*Term // declared variables in this session (for get-value)
+	varSeen  map[string]bool
 	asserted map[string]bool
-	queries int
-	satN    int
-	unsatN  int
-	unkN    int
-	errN    int
-	time    time.Duration
-	timeout int // ms
-	log     io.Writer
-	kind    string
+	queries  int
+	satN     int
+	unsatN   int
+	unkN     int
+	errN     int
+	time     time.Duration
+	timeout  int // ms
+	log      io.Writer
+	kind     string
 }
 
 func newSolver(kind string, timeoutMS int) (*Solver, error) {
